@@ -114,7 +114,7 @@ CHECKS = {
                 "run over a pipeline with a detector-memory probe, an in-place argument mutator and the library's simple_persistence. Every run's pixel/signal/image entry must equal the standalone exposure with "
                 "that run's values, failing runs must not affect their neighbours on the dask path, and the snapshot of detector, pipeline, readout and mode must be unchanged after the call, also when it raised. Exploration.",
         "design_ref": "DESIGN.md section 3, C06",
-        "note": "Calibration isolation is exercised in C10/C11's run-level parts (snapshot before/after). K1 class excluded as in C05.",
+        "note": "Part 'calibration': real calibration runs (sade/sga, 1..2 islands, 1..2 targets, 1..3 readouts) over the same state-keeping pipeline with a recording fitness function; sampled candidates and the champions' returned data must equal the standalone exposure with the values the probe received; caller's objects unchanged. K1 class excluded as in C05.",
     },
     "C09": {
         "level": "fault_enumeration",
